@@ -12,7 +12,7 @@ from .core import Site, op_const, op_place
 
 class Taint:
     def __init__(self, prog, source_field, source_call=None, sanitizers=(), declassifiers=(), scope=None,
-                 param_sources=None, no_propagate=None):
+                 param_sources=None, no_propagate=None, carrier_fields=None, clean_type=None):
         self.P = prog
         self.source_field = source_field          # (owner, name) -> label | None
         self.source_call = source_call or (lambda site: None)
@@ -20,8 +20,11 @@ class Taint:
         self.decl = [re.compile(x) for x in declassifiers]
         self.scope = scope or (lambda fn: True)
         self.no_propagate = no_propagate or (lambda site: False)
+        self.carrier = carrier_fields or (lambda adt, field: False)   # declared secret slots: storing there does not taint the whole value
+        self.clean_type = clean_type or (lambda ty: False)
         self.t = defaultdict(dict)                 # fn path -> {local: label}
         self.env = defaultdict(dict)               # closure / coroutine path -> {upvar index: label}
+        self.tuple_only = defaultdict(set)         # locals tainted only per tuple field
         self.ret = {}                              # fn path -> label (return place tainted)
         for path, locs in (param_sources or {}).items():
             for l, label in locs.items():
@@ -44,6 +47,11 @@ class Taint:
                     if lab:
                         return lab
                 break
+        pr = pl.get('p', [])
+        if pr and isinstance(pr[0], dict) and 'f' in pr[0] and (pl['l'], pr[0]['f']) in self.t[fpath]:
+            return self.t[fpath][(pl['l'], pr[0]['f'])]
+        if pr and isinstance(pr[0], dict) and 'f' in pr[0] and pl['l'] in self.tuple_only.get(fpath, ()):
+            return None
         return self.t[fpath].get(pl['l'])
 
     def op_label(self, fpath, op):
@@ -73,8 +81,17 @@ class Taint:
         return self
 
     def _mark(self, fpath, l, label):
+        f = self.P.fns.get(fpath)
+        base = l[0] if isinstance(l, tuple) else l
+        if f is not None and not isinstance(l, tuple) and base < len(f.locals) and self.clean_type(f.locals[base]['ty']):
+            return False
         if l not in self.t[fpath]:
             self.t[fpath][l] = label
+            if isinstance(l, tuple):
+                if base not in self.t[fpath]:
+                    self.tuple_only[fpath].add(base)
+            else:
+                self.tuple_only[fpath].discard(base)
             return True
         return False
 
@@ -101,6 +118,24 @@ class Taint:
                                 self.env[rv['def']][i] = l2
                                 ch = True
                     continue
+                if rv['k'] == 'use' and 'p' not in st['d']:
+                    pl0 = op_place(rv['a'][0])
+                    if pl0 is not None and 'p' not in pl0:
+                        for key, lb in list(self.t[fp].items()):
+                            if isinstance(key, tuple) and key[0] == pl0['l']:
+                                ch |= self._mark(fp, (st['d']['l'], key[1]), lb)
+                if rv['k'] == 'agg' and rv.get('ak') == 'tuple' and 'p' not in st['d']:
+                    for i, o in enumerate(rv['a']):
+                        l2 = self.op_label(fp, o)
+                        if l2:
+                            ch |= self._mark(fp, (st['d']['l'], i), l2)
+                    continue
+                if rv['k'] == 'agg' and rv.get('ak') == 'adt':
+                    lab = None
+                    for fname, o in zip(rv.get('fields', []), rv['a']):
+                        if self.carrier(rv['adt'], fname):
+                            continue
+                        lab = lab or self.op_label(fp, o)
                 if lab:
                     ch |= self._mark(fp, st['d']['l'], lab)
             t = bl['t']
@@ -126,12 +161,17 @@ class Taint:
                     for pi in range(2, callee.argc + 1):
                         ch |= self._mark(callee.path, pi, labs[1])
                 # async fn: the value is produced by the coroutine body
-                co = self.P.fns.get(s.callee + '::{closure#0}')
+                co = self.P.async_body(s.callee)
                 rl = self.t[callee.path].get(0)
                 if co is not None:
                     rl = rl or self.t[co.path].get(0)
                 if rl:
                     ch |= self._mark(fp, s.dest['l'], rl)
+                for src_path in (callee.path, co.path if co is not None else None):
+                    if src_path:
+                        for key, lb in list(self.t[src_path].items()):
+                            if isinstance(key, tuple) and key[0] == 0 and 'p' not in s.dest:
+                                ch |= self._mark(fp, (s.dest['l'], key[1]), lb)
             elif lab:
                 ch |= self._mark(fp, s.dest['l'], lab)
                 if s.args:
